@@ -209,9 +209,14 @@ class HoistSetupCallsIntoConditionals(RewritePattern):
             if block.get_operation_index(launch_op) < block.get_operation_index(op):
                 return
 
+        # a setup nested in a later op (e.g. in a branch of a second scf.if) only runs conditionally,
+        # inside the branches of this scf.if it would run always
+        if_op = op.in_state.owner
+        if op.parent_block() is not if_op.parent_block():
+            return
+
         # the values we set up must already be available inside the branches,
         # i.e. be defined in front of the scf.if:
-        if_op = op.in_state.owner
         for val in op.values:
             if not isinstance(val, OpResult):
                 continue
@@ -222,7 +227,7 @@ class HoistSetupCallsIntoConditionals(RewritePattern):
             block = val.owner.parent_block()
             if ancestor is None or block is None:
                 return
-            if block.get_operation_index(val.owner) > block.get_operation_index(ancestor):
+            if block.get_operation_index(val.owner) >= block.get_operation_index(ancestor):
                 return
 
         # Step 2: Clone the op into the end of both branches
